@@ -197,7 +197,17 @@ def seeHandle (a b : String) : String × String :=
           if See.capturers pa.game m moved occ == See.seq m.dst 40 after pa.pos.player.other then none else some m.text
         | _, _, _ => none
       let tag2 := match seqBad with | [] => "@seq=ok" | m :: _ => s!"@seq={m}"
-      (" ".intercalate sorted, " ".intercalate (tag :: tag2 :: sortStrings specItems))
+      -- the statement of `see_swaplist`, executed on every capture of the request (its hypotheses hold for the legal
+      -- captures of a legal position): a witness that the theorem speaks about these inputs
+      let thmBad := caps.filterMap fun m =>
+        match pa.game.board.pieceAt m.src, See.occAfter pa.game m with
+        | some moved, some occ =>
+          let expected := decide (0 ≤ See.gain pa.game m -
+            See.swapAbs (See.capturers pa.game m moved occ) (See.pieceValue (See.placed moved m)))
+          if See.see pa.game m 0 == some expected then none else some m.text
+        | _, _ => some m.text
+      let tag3 := match thmBad with | [] => "@thm=ok" | m :: _ => s!"@thm={m}"
+      (" ".intercalate sorted, " ".intercalate (tag :: tag2 :: tag3 :: sortStrings specItems))
   | _, _ => bad
 
 /-! ### C18 -/
